@@ -54,18 +54,12 @@ Theorem C11_header_cap : forall c b m, List.length b = 65%nat -> Forall (fun x =
 Proof. exact (header_cap ctx ev begin_body finish_body step_nobody e1 e2 e3). Qed.
 End Generic.
 
-Print Assumptions C11_decide_by_65.
-Print Assumptions C11_rejected_never_buffered.
-Print Assumptions C11_skipping_stores_nothing.
-Print Assumptions C11_bound.
-Print Assumptions C11_header_cap.
 
 (* the size-limited tasters of the transcription accept a sized body only if it fits their limit *)
 Theorem C11_taster_respects_limit : forall mode f ty size,
   check_frame mode f ty size = CkOk -> is_sized ty = true ->
   (f_kind f = kS -> size <= f_param f) /\ (f_kind f = kR -> 3 <= mode -> size <= mode - 3).
 Proof. exact taster_respects_limit. Qed.
-Print Assumptions C11_taster_respects_limit.
 
 (* the negotiation phase (negotiate.py Negotiation.dataReceived, guard translated into gen/NegotiateGen.header_verdict: 0 = refuse
    "Header too long", 1 = wait for more, 2 = split off a block): a block whose terminator lies beyond 4096 bytes is refused; without a
@@ -79,10 +73,6 @@ Theorem C11_negotiation_waits_below_cap : forall buflen, header_verdict (-1) buf
 Proof. exact neg_waits_below_cap. Qed.
 Theorem C11_negotiation_block_within_cap : forall eoh buflen, 0 <= eoh <= 4096 -> header_verdict eoh buflen = 2.
 Proof. exact neg_block_within_cap. Qed.
-Print Assumptions C11_negotiation_cap.
-Print Assumptions C11_negotiation_cap_no_terminator.
-Print Assumptions C11_negotiation_waits_below_cap.
-Print Assumptions C11_negotiation_block_within_cap.
 
 (* Index tokens (the strings after an OPEN) are judged by the ROOT unslicer, not by the schema: on a Broker the first is
    bounded by the longest opentype string and the class name after OPEN copyable by the longest registered Copyable name;
@@ -103,10 +93,6 @@ Proof. exact root_index_bounded. Qed.
 Theorem C11_index_positions : open_waits_only_for_copyable_name = true.
 Proof. exact second_index_only_after_copyable. Qed.
 
-Print Assumptions C11_pb_first_index_token_bounded.
-Print Assumptions C11_pb_copyable_classname_bounded.
-Print Assumptions C11_root_index_tokens_bounded.
-Print Assumptions C11_index_positions.
 
 (* ======================================================================================================================
    ROUND 5.  "under a schema with finite size limits the bytes held for a partly received message never exceed the schema's
@@ -118,7 +104,6 @@ Require Import Verif.gen.RecvGen Verif.lib.Unsl Verif.lib.UnslProofs Verif.lib.S
 Theorem C11_schema_bound_standard_unslicers : forall mi lg c Bs cs, sbound c = Some Bs ->
   lenZ (r_buf (fst (sfeed_all mi lg (init (sctx0 (Some c))) cs))) < 65 + Z.max (Z.max (Z.max Bs (Z.max mi lg)) 8) SIZE_LIMIT.
 Proof. exact std_buffer_bounded. Qed.
-Print Assumptions C11_schema_bound_standard_unslicers.
 
 (* what the bound rests on: a token that a constraint's taster accepts fits the constraint's bound ... *)
 Theorem C11_taster_accepts_within_bound : forall c ty size B, usized ty = true -> ole (sbound c) B -> staste c ty size = OOk tt -> size <= B.
@@ -130,9 +115,6 @@ Proof. exact std_P_check. Qed.
 (* ... and a child unslicer inherits a bound no larger than its parent's slot *)
 Theorem C11_child_inherits_bound : forall B, 0 <= B -> forall st ot ch, Forall (SP B) st -> std_do_open st ot = OOk (Some ch) -> SP B ch.
 Proof. exact std_P_open. Qed.
-Print Assumptions C11_taster_accepts_within_bound.
-Print Assumptions C11_unslicer_check_within_bound.
-Print Assumptions C11_child_inherits_bound.
 
 (* the same bound for EVERY unslicer semantics whose reachable unslicers (P) have tasters bounded by B *)
 Theorem C11_bound_any_unslicers :
@@ -144,7 +126,6 @@ Theorem C11_bound_any_unslicers :
   (forall st ty size ot, usized ty = true -> u_opener_check st ty size ot = OOk tt -> size <= B) ->
   forall cs s, good fr P B s -> good fr P B (fst (ufeed_all fr u_check u_opener_check u_do_open u_start u_child u_close u_finish u_report s cs)).
 Proof. intros. eapply unsl_buffer_bounded_inv; eauto. Qed.
-Print Assumptions C11_bound_any_unslicers.
 
 (* non-vacuity: DictOf(ByteString(3), TupleOf(ByteString(5), Integer(maxBytes=8))) has bound 8 *)
 Example C11_sbound_example :
@@ -181,8 +162,17 @@ Theorem C11_tie_header_window : hd_window = 65 /\ hd_max_header = 64 /\ hd_hibit
 Proof. exact tie_header_window. Qed.
 Theorem C11_tie_error_oversize : forall hdr, hd_error_oversize hdr = (SIZE_LIMIT <? hdr).
 Proof. exact tie_error_oversize. Qed.
-Print Assumptions C11_tie_rejected_body_is_skipped.
-Print Assumptions C11_tie_accepted_body_waits.
-Print Assumptions C11_tie_skip_prologue.
-Print Assumptions C11_tie_header_window.
-Print Assumptions C11_tie_error_oversize.
+
+(* one Print Assumptions per group: the axioms of a tuple are the union of the axioms of its components *)
+Definition C11_group_1 := (@C11_decide_by_65, @C11_rejected_never_buffered, @C11_skipping_stores_nothing, @C11_bound, @C11_header_cap, @C11_taster_respects_limit, @C11_negotiation_cap, @C11_negotiation_cap_no_terminator, @C11_negotiation_waits_below_cap, @C11_negotiation_block_within_cap, @C11_pb_first_index_token_bounded, @C11_pb_copyable_classname_bounded).
+Print Assumptions C11_group_1.
+(* one Print Assumptions per group: the axioms of a tuple are the union of the axioms of its components *)
+Definition C11_group_2 := (@C11_root_index_tokens_bounded, @C11_index_positions, @C11_schema_bound_standard_unslicers, @C11_taster_accepts_within_bound, @C11_unslicer_check_within_bound, @C11_child_inherits_bound, @C11_bound_any_unslicers, @C11_tie_rejected_body_is_skipped, @C11_tie_accepted_body_waits, @C11_tie_skip_prologue, @C11_tie_header_window, @C11_tie_error_oversize).
+Print Assumptions C11_group_2.
+
+(* the index-token check used by the standard-unslicer model is the TRANSLATED RootUnslicer.openerCheckToken, for all arguments *)
+Require Import Verif.lib.OpenerTie.
+Theorem C11_standard_opener_is_translated : forall mi lg st ty size ot,
+  std_opener mi lg st ty size ot = if root_opener_accepts mi lg ot ty size then OOk tt else OViol.
+Proof. exact std_opener_is_translated. Qed.
+Print Assumptions C11_standard_opener_is_translated.
